@@ -30,6 +30,7 @@ pub struct World {
     subscriptions: std::sync::Mutex<HashMap<(StoreIx, SubId), SubSlot>>,
     sub_objs: std::sync::Mutex<HashMap<SubId, Arc<SSub>>>,
     eff_lists: std::sync::Mutex<HashMap<ActId, Vec<EffId>>>,
+    iters: std::sync::Mutex<HashMap<u32, Box<dyn Iterator<Item = (St, Act)> + Send>>>,
 }
 
 impl World {
@@ -42,6 +43,7 @@ impl World {
             subscriptions: Default::default(),
             sub_objs: Default::default(),
             eff_lists: Default::default(),
+            iters: Default::default(),
         })
     }
     pub fn store(&self, ix: StoreIx) -> Option<Arc<TStore>> {
@@ -109,6 +111,9 @@ fn thunk_body(w: Arc<World>, e: EffSpec) -> Box<dyn FnOnce(Box<dyn Dispatcher<Ac
             }
         }
         drop(d);
+        for (i, op) in e.ops.iter().enumerate() {
+            exec_op(&w, 1000 + e.id, i as u32, op);
+        }
         if e.panics {
             panic!("{}", SCRIPTED_PANIC);
         }
@@ -120,6 +125,9 @@ fn task_body(w: Arc<World>, e: EffSpec) -> Box<dyn FnOnce() + Send> {
     Box::new(move || {
         w.ctx.ev(Ev::Eff { eff: e.id });
         w.ctx.stall(e.stall);
+        for (i, op) in e.ops.iter().enumerate() {
+            exec_op(&w, 1000 + e.id, i as u32, op);
+        }
         if e.panics {
             panic!("{}", SCRIPTED_PANIC);
         }
@@ -140,6 +148,9 @@ fn make_effect(w: &Arc<World>, e: &EffSpec) -> Effect<Act> {
                 Box::new(move || {
                     w.ctx.ev(Ev::Eff { eff: e2.id });
                     w.ctx.stall(e2.stall);
+                    for (i, op) in e2.ops.iter().enumerate() {
+                        exec_op(&w, 1000 + e2.id, i as u32, op);
+                    }
                     if e2.panics {
                         panic!("{}", SCRIPTED_PANIC);
                     }
@@ -532,6 +543,54 @@ fn do_op(w: &Arc<World>, op: &Op) -> Res {
                 }
             }
         }
+        Op::IterOpen { store, it, ready } => {
+            let Some(s) = w.store(*store) else { return Res::Skipped };
+            let iter = s.iter();
+            drop(s);
+            slock(&w.iters).insert(*it, Box::new(iter));
+            w.ctx.ev(Ev::ItNew { it: *it });
+            if let Some(g) = ready {
+                w.ctx.gate(*g).signal();
+            }
+            Res::Unit
+        }
+        Op::IterTake { it, .. } | Op::IterDrain { it } => {
+            let k = match op {
+                Op::IterTake { k, .. } => *k,
+                _ => u32::MAX,
+            };
+            let Some(mut iter) = slock(&w.iters).remove(it) else { return Res::Skipped };
+            let mut got = 0;
+            while got < k {
+                match iter.next() {
+                    Some((st, a)) => {
+                        got += 1;
+                        w.ctx.ev(Ev::It { it: *it, act: a.id, st });
+                    }
+                    None => {
+                        w.ctx.ev(Ev::ItNone { it: *it, nth: 0 });
+                        for nth in 1..=2 {
+                            if iter.next().is_none() {
+                                w.ctx.ev(Ev::ItNone { it: *it, nth });
+                            }
+                        }
+                        w.ctx.ev(Ev::ItDropIn { it: *it });
+                        drop(iter);
+                        w.ctx.ev(Ev::ItDropOut { it: *it });
+                        return Res::Unit;
+                    }
+                }
+            }
+            slock(&w.iters).insert(*it, iter);
+            Res::Unit
+        }
+        Op::IterClose { it } => {
+            let Some(iter) = slock(&w.iters).remove(it) else { return Res::Skipped };
+            w.ctx.ev(Ev::ItDropIn { it: *it });
+            drop(iter);
+            w.ctx.ev(Ev::ItDropOut { it: *it });
+            Res::Unit
+        }
         Op::AddReducer { store, comp } => {
             let Some(s) = w.store(*store) else { return Res::Skipped };
             s.add_reducer(mk_red(w, *comp));
@@ -649,6 +708,8 @@ pub fn run_case(scn: Arc<Scenario>, log: Arc<std::sync::Mutex<LogInner>>) {
         }
     }
     w.ctx.ev(Ev::CleanupOut);
+    let its: Vec<_> = slock(&w.iters).drain().collect();
+    drop(its);
     // a channeled subscriber registered after its store had shut down still owns a delivery
     // thread: detach everything that is left so that no thread outlives the case
     let subs: Vec<_> = slock(&w.subscriptions).drain().collect();
